@@ -96,6 +96,49 @@ def check_enum(c):
     return None
 
 
+def check_enum_after_change(c):
+    """enumerate, change the tree through nested nodes / inherited dict methods, enumerate again:
+    the second enumeration must describe the tree as it is now"""
+    import random
+
+    o = X.convert(c["tree"], c["mode"])
+    if not isinstance(o, dict):
+        return None
+    rng = random.Random(c["seed"])
+    o.xpath()
+    o.to_xpath()
+    for _ in range(c["n"]):
+        conts = [(p, v) for p, v in X.positions(o) if isinstance(v, (dict, list))]
+        p, node = rng.choice(conts)
+        if isinstance(node, dict):
+            r = rng.random()
+            if r < 0.5:
+                dict.__setitem__(node, rng.choice(["n", "m", "a"]), rng.choice(["new", 0, None, {"z": 1}]))
+            elif r < 0.7 and node:
+                dict.__delitem__(node, rng.choice(list(node)))
+            else:
+                node.update({"u": [1, "x"]})
+        else:
+            r = rng.random()
+            if r < 0.5:
+                node.append(rng.choice(["t", 0, {"q": 2}]))
+            elif r < 0.7 and node:
+                list.pop(node, 0)
+            elif node:
+                list.__setitem__(node, 0, "changed")
+        if rng.random() < 0.5:
+            o.xpath()
+    got = o.xpath()
+    want = dfs_leaves(o)
+    if [(p, repr(v)) for p, v in got] != [(p, repr(v)) for p, v in want]:
+        return {"enumeration_after_change": [p for p, _ in got][:8], "tree_now": [p for p, _ in want][:8]}
+    for xp, v in got:
+        r = core.call(lambda: o[xp])
+        if r[0] != "ok" or r[1] is not v:
+            return {"xpath": xp, "after_change": repr(r)[:100]}
+    return None
+
+
 def check_spelling(c):
     """a spelling of a node position resolves to the object plain indexing gives"""
     o = X.convert(c["tree"], c["mode"])
@@ -133,14 +176,16 @@ def check_miss(c):
     return None
 
 
-EVALS = {"enum": check_enum, "spelling": check_spelling, "miss": check_miss}
+EVALS = {"enum": check_enum, "spelling": check_spelling, "miss": check_miss, "enum_after_change": check_enum_after_change}
 
 
 def shrink_failure(evaluator, case):
-    f = EVALS.get(evaluator.split("/")[0])
-    if not f or "pos" in case:
+    # only the tree of an enumeration case is shrunk: a path is tied to its tree, and a shrunk
+    # path may fail for a reason that has nothing to do with the property
+    ev = evaluator.split("/")[0]
+    if ev != "enum":
         return case
-    return core.shrink(case, lambda c: isinstance(c.get("tree"), (dict, list)) and c.get("mode") in ("n0", "wrap") and f(c) is not None and not in_known_attr(c, f(c)))
+    return core.shrink(case, lambda c: isinstance(c.get("tree"), dict) and c.get("mode") in ("n0", "wrap") and check_enum(c) is not None)
 
 
 def replay(rp):
@@ -191,6 +236,9 @@ def run(ctx):
     # ---- C: enumeration and resolution of every enumerated pair
     ctx.evaluate("enum", [t for t in trees if isinstance(t["tree"], dict)], check_enum, nontrivial=lambda c: len(dfs_leaves(c["tree"])) > 1)
 
+    rng = ctx.rng("stateful")
+    ctx.evaluate("enum_after_change", [dict(t, seed=rng.randrange(10**9), n=rng.randrange(1, 4)) for t in trees if isinstance(t["tree"], dict)][: ctx.budget(300, 6000)], check_enum_after_change)
+
     # ---- spellings of every node position; misses derived from them
     rng = ctx.rng("spellings")
     sp_cases, miss_cases = [], []
@@ -206,9 +254,15 @@ def run(ctx):
             if idxs:
                 i = rng.choice(idxs)
                 n = X.len_at(t["tree"], p[:i])
-                bad = rng.choice([n, -n - 1, n + 3])
+                bad = rng.choice([n, -n - 1, n + 3, -2 * n, -n - 2])
                 base = X.render(rng, t["tree"], p[:i], "rel") if p[:i] else ""
-                miss_cases.append({"tree": t["tree"], "mode": t["mode"], "xp": base + "[%d]" % bad})
+                # the out-of-range index in every spelling of the property
+                sp = rng.randrange(5)
+                if bad >= 0:
+                    txt = [str(bad), "%d+%d" % (bad - 1, 1), " %d " % bad, "%d+0" % bad, str(bad)][sp]
+                else:
+                    txt = [str(bad), "last()-%d" % (-bad - 1), "0-%d" % (-bad), "last() - %d" % (-bad - 1), "%d-%d" % (1, 1 - bad)][sp]
+                miss_cases.append({"tree": t["tree"], "mode": t["mode"], "xp": base + "[%s]" % txt})
     nt = lambda c: len(c.get("pos", ())) > 1
     # exhaustive small scope: every dict-rooted tree with <= n nodes below the root, every position, canonical spelling
     nmax = 4 if ctx.tier == "thorough" else 3
